@@ -75,7 +75,7 @@ fn collect_dnf(
 
                 for bounds in range.iter() {
                     let current = path.len();
-                    for specifier in VersionSpecifier::from_release_only_bounds(bounds) {
+                    for specifier in release_only_specifiers(bounds) {
                         path.push(MarkerExpression::Version {
                             key: marker.key().clone(),
                             specifier,
@@ -324,6 +324,21 @@ where
     Some(excluded)
 }
 
+/// Like [`VersionSpecifier::from_release_only_bounds`], but also recognizes `[X, X.1)` as
+/// `== X.0.*`: versions in the tree have their trailing zeros stripped, so `X.0` is stored as `X`.
+fn release_only_specifiers(bounds: (&Bound<Version>, &Bound<Version>)) -> Vec<VersionSpecifier> {
+    if let (Bound::Included(v1), Bound::Excluded(v2)) = bounds {
+        if let [major] = *v1.release() {
+            if v2.release() == [major, 1] {
+                return vec![VersionSpecifier::equals_star_version(Version::new([
+                    major, 0,
+                ]))];
+            }
+        }
+    }
+    VersionSpecifier::from_release_only_bounds(bounds).collect()
+}
+
 /// Returns `Some` if the version expression can be simplified as a star inequality with the given
 /// specifier.
 ///
@@ -333,11 +348,20 @@ fn star_range_inequality(range: &Ranges<Version>) -> Option<VersionSpecifier> {
     let (b1, b2) = range.iter().collect_tuple()?;
 
     match (b1, b2) {
-        ((Bound::Unbounded, Bound::Excluded(v1)), (Bound::Included(v2), Bound::Unbounded))
-            if v1.release().len() == 2
-                && v2.release() == [v1.release()[0], v1.release()[1] + 1] =>
-        {
-            Some(VersionSpecifier::not_equals_star_version(v1.clone()))
+        ((Bound::Unbounded, Bound::Excluded(v1)), (Bound::Included(v2), Bound::Unbounded)) => {
+            // Versions in the tree have their trailing zeros stripped, so `3.0` is stored as `3`.
+            let (major, minor) = match *v1.release() {
+                [major] => (major, 0),
+                [major, minor] => (major, minor),
+                _ => return None,
+            };
+            if v2.release() == [major, minor + 1] {
+                Some(VersionSpecifier::not_equals_star_version(Version::new([
+                    major, minor,
+                ])))
+            } else {
+                None
+            }
         }
         _ => None,
     }
